@@ -186,6 +186,51 @@ def run(ctx):
     if not ok:
         res.find(key, "%s:%d" % (ewrite["file"], ewrite["ln"]), "the Prefix arm of Expression::write prints an operand that itself starts with a sign (a nested Prefix, a negative literal) directly after the operator: the parser accepts only one prefix operator before an atom (%s)" % detail,
                  "Prefix(-, Prefix(-, %x)) prints `--%x`, which does not parse; Prefix(-, Number(1+2i)) prints `-1+2.0i` = -1+2i")
+    # every direct (un-grouped) recursive write of the operand inside the Prefix arm sits between "(" and ")" of its own
+    # block: an operand is never printed bare, whatever the operator (a `+` prints nothing, so a bare operand would
+    # merge with the surrounding infix expression)
+    key = "K7|operand-atomic|prefix-operand-never-bare"
+    ok = False
+    detail = {}
+    if len(pre) == 1:
+        bare = []
+        nrec = [0]
+
+        def blocks_with_direct_writes(n):
+            if isinstance(n, dict):
+                if n.get("k") == "block":
+                    direct = []
+
+                    def v(x):
+                        if x is not n and x.get("k") == "block":
+                            return False  # nested blocks are handled on their own
+                        if x.get("k") == "mcall" and x["m"] == "write" and src(x).replace(" ", "").startswith(("expression.write(", "(**expression).write(", "(*expression).write(")):
+                            direct.append(x)
+                        return None
+
+                    walk(n, v)
+                    if direct:
+                        nrec[0] += len(direct)
+                        # emissions of this block alone (nested blocks included: they can only add text inside)
+                        if not wrapped(emissions(n)):
+                            bare.append(src(direct[0])[:60])
+                for k_, v_ in n.items():
+                    if k_ in ("template", "template_raw"):
+                        continue
+                    if isinstance(v_, (dict, list)):
+                        blocks_with_direct_writes(v_)
+            elif isinstance(n, list):
+                for x in n:
+                    blocks_with_direct_writes(x)
+
+        blocks_with_direct_writes(pre[0]["body"])
+        inner_calls = find_all(pre[0]["body"], lambda n: n.get("k") == "call" and n["f"].get("k") == "path" and n["f"]["p"].rsplit("::", 1)[-1] == "format_inner_expression")
+        ok = not bare and (nrec[0] + len(inner_calls)) >= 1
+        detail = {"direct_recursive_writes": nrec[0], "bare": bare, "through_format_inner_expression": len(inner_calls)}
+    res.site(key, True, dict(detail, verdict="ok" if ok else "VIOLATION"))
+    if not ok:
+        res.find(key, "%s:%d" % (ewrite["file"], ewrite["ln"]), "the Prefix arm of Expression::write prints its operand bare on some path (%s): with an operator that prints nothing (`+`) or an infix operand the text regroups" % detail,
+                 "Infix(Prefix(+, a+b), *, c) prints `%a+%b*%c`")
     # R3 parser contract
     key = "K8|single-prefix-binds-tightest"
     is_prefix_ctor = lambda n: (n.get("k") == "path" and n["p"].endswith("Expression::Prefix")) or (n.get("k") == "struct" and str(n.get("path", "")).endswith("PrefixExpression"))
